@@ -11,7 +11,9 @@ use crate::master::error::TaskError;
 use crate::master::messages::{MasterMsg, Message};
 use crate::master::tasks::{AppTask, AssociationTask, NonReadTask, ReadTask, RequestWriter, Task};
 use crate::master::{Association, MasterChannelConfig};
-use crate::transport::{FragmentAddr, TransportReader, TransportResponse, TransportWriter};
+use crate::transport::{
+    FragmentAddr, LinkLayerMessageType, TransportReader, TransportResponse, TransportWriter,
+};
 use crate::util::buffer::Buffer;
 use crate::util::channel::Receiver;
 use crate::util::phys::PhysLayer;
@@ -809,15 +811,20 @@ impl MasterSession {
                     x?;
                     match reader.pop_response() {
                         Some(TransportResponse::Response(addr, response)) => {
+                            // an application fragment (e.g. an unsolicited response) is handled, but it is
+                            // not the answer: the request stays outstanding until it is answered or times out
                             self.notify_link_activity(addr.link);
                             self.handle_fragment_while_idle(io, writer, addr, response).await?;
-                            return Err(TaskError::UnexpectedResponseHeaders);
                         }
                         Some(TransportResponse::LinkLayerMessage(msg)) => {
                             self.notify_link_activity(msg.source);
-                            return Ok(());
+                            if msg.source == destination.link
+                                && msg.message == LinkLayerMessageType::LinkStatusResponse
+                            {
+                                return Ok(());
+                            }
                         }
-                        Some(TransportResponse::Error(_)) => return Err(TaskError::UnexpectedResponseHeaders),
+                        Some(TransportResponse::Error(_)) => continue,
                         None => continue,
                     }
                 }
